@@ -326,6 +326,11 @@ theorem step_wf {s s' : State} {op : Op} {r : Res} (hw : WF s) (e : step s op = 
     simp only [step] at e
     obtain ⟨⟨e1, v⟩, _, e⟩ := bind_ok e
     cases e; exact hw
+  | normalizeSep b =>
+    simp only [step] at e
+    obtain ⟨h1, hcore, e⟩ := bind_ok e
+    cases e
+    exact hw.setBufMem (m' := { s.mem with heap := h1 }) (bufNormalizeSep_spec (hw.bufOk b) hcore).1
   | hashIgnoreCase c =>
     simp only [step] at e
     obtain ⟨v, _, e⟩ := bind_ok e
